@@ -33,7 +33,7 @@ func runC10(p *Prog, r *Report) {
 		r.Describe(R, "closing a listener affects only that object: the inproc registry entry is removed only if it is this listener's own (a listener whose Listen failed with ErrAddrInUse must not unregister the owner of the address)")
 		if f := q.Fn(R, "transport/inproc", "listener", "Close"); f.OK() {
 			del := f.Ev("delete", "delete").Arg(0, "transport/inproc.listeners.byAddr")
-			ok := len(del) == 1 && del[0].Args[1] == "recv.addr" && len(del[0].Guard) == 1 && del[0].Guard[0] == "transport/inproc.listeners.byAddr[recv.addr] == recv"
+			ok := len(del) == 1 && del[0].Args[1] == "recv.addr" && len(del[0].Guard) == 1 && litEq(del[0].Guard[0], "transport/inproc.listeners.byAddr[recv.addr] == recv")
 			r.Check(ok, R, "inproc.listener.Close/unregisters-only-itself", del.Pos(p), "delete(byAddr, l.addr) only when byAddr[l.addr] == l", "inproc listener.Close removes the registry entry of its address without checking that the entry is itself: closing a listener that never bound the address makes the still-open owner unreachable (every Dial is refused): "+guardsOf(del))
 		}
 	}
